@@ -51,18 +51,17 @@ def all_graphs(n):
 
 
 def tree_leaves(tier, seed):
-    specs = [(2, 2, 1, 20, 1), (3, 2, 1, 20, 1), (2, 3, 1, 20, 1), (3, 2, 0, 20, 1), (4, 2, 1, 25, 7 if tier != "thorough" else 1)]
+    """leaves of the real tree generator (wrappers::tree_progs through the harness)"""
+    specs = [(2, 2, 1, 20), (2, 2, 0, 20), (3, 2, 1, 20), (3, 2, 0, 20), (2, 3, 1, 20), (2, 3, 0, 12), (4, 2, 1, 6)]
     if tier == "thorough":
-        specs += [(2, 4, 1, 25, 1), (3, 3, 1, 12, 5), (5, 2, 1, 12, 31)]
-    else:
-        specs += [(5, 2, 1, 8, 97)]
-    lines = [f"treelist17 {s} {c} {h} {st} {stride} {seed % stride}" for s, c, h, st, stride in specs]
+        specs += [(4, 2, 1, 25), (2, 4, 1, 25), (3, 3, 1, 3)]
+    lines = [f"treelist {s} {c} {h} {st}" for s, c, h, st in specs]
     outs = core.run_harness(lines)
     res = []
-    for (s, c, h, st, stride), o in zip(specs, outs):
-        if o in ("BAD-OP", "PANIC"):
-            raise RuntimeError(f"treelist17: {o}")
-        res += [(s, p) for p in o.split(";")[1:] if p]
+    for (s, c, h, st), o in zip(specs, outs):
+        if o in ("BAD-OP", "PANIC", "limit:overflow"):
+            raise RuntimeError(f"treelist: {o}")
+        res += [(s, p) for p in o.split(";") if p]
     return res
 
 
@@ -109,7 +108,7 @@ def check(rep, tier, seed, replay):
     rep.add_counts(len(lines), len(distinct))
     rep.cov["rule"] = ("transition graphs as programs: every edge set on 1..3 states, " + ("every" if tier == "thorough" else "a seeded sample of the")
                        + " edge set(s) on 4 states, seeded random graphs on 5-6 states, seeded random tables up to 6x2/4x3/2x6; tree leaves "
-                       "(real tree generator, through the harness) 2x2, 3x2, 2x3, 4x2 and a stride of 5x2" + (", 2x4, 3x3" if tier == "thorough" else "")
+                       "(real tree generator, through the harness) 2x2, 3x2, 2x3 (both halt flags), 4x2" + (", 2x4, 3x3" if tier == "thorough" else "")
                        + ". Oracle: transitive closure in the orchestrator: 'false' => not strongly connected (for one state the answer is always false: "
                        "the single state has no way out, the property's own gloss); for tree leaves 'true' <=> strongly connected. "
                        "Distinct non-trivial = distinct (program, answer) judged true by the oracle.")
